@@ -190,4 +190,4 @@ def setup(rep, tier):
     control(rep)
     rep.assumptions += ['malloc/free, mem*, libm and the x86 intrinsics are thread-safe',
                         'callers use one thread per codec object',
-                        'no pointer is laundered through an integer, a union or a varargs list']
+                        'no pointer is laundered through an integer, a union or a varargs list (a direct `&object` variadic argument - the ctl idiom - is treated as a store through it)']
